@@ -57,37 +57,37 @@ theorem tables_active_first : tables.all (fun t => (t.head?.map (·.ftype)) == s
 
 /-! ## the engine -/
 
-/-- a dry run never changes anything -/
+/-- a dry run (outside an error report) never changes anything -/
 theorem enable_dry_pure (fuel : Nat) (F : Forest) (o f : Nat) (tl : Bool) :
-    (enable fuel F o f true tl).1 = F := by
+    (enable fuel F o f true tl false).1 = F := by
   exact enable_dry_fst fuel F o f tl
 
 /-- enabling a feature that conflicts with an enabled one fails and leaves everything as it was:
     mutually exclusive capabilities are never enabled together by `enable` -/
-theorem enable_excluded_fails (fuel : Nat) (F : Forest) (o f : Nat) (dry tl : Bool)
+theorem enable_excluded_fails (fuel : Nat) (F : Forest) (o f : Nat) (dry tl err : Bool)
     (hne : (getF F o f).enabled = false) (hav : (getF F o f).available = true)
     (hty : tl = true ∨ (decl (clsOf F o) f).ftype = 0)
     (hex : (decl (clsOf F o) f).excl.any (isEnabled F o) = true) :
-    enable (fuel + 1) F o f dry tl = (F, false) := by
+    enable (fuel + 1) F o f dry tl err = (F, false) := by
   rw [enable]
   rcases hty with h | h <;> simp [hne, hav, h, hex]
 
 /-- an unavailable feature cannot be enabled -/
-theorem enable_unavailable_fails (fuel : Nat) (F : Forest) (o f : Nat) (dry tl : Bool)
+theorem enable_unavailable_fails (fuel : Nat) (F : Forest) (o f : Nat) (dry tl err : Bool)
     (hne : (getF F o f).enabled = false) (hav : (getF F o f).available = false) :
-    enable (fuel + 1) F o f dry tl = (F, false) := by
+    enable (fuel + 1) F o f dry tl err = (F, false) := by
   rw [enable]; simp [hne, hav]
 
 /-- static and user features are never switched on as a side effect of a dependency -/
-theorem enable_nondynamic_not_automatic (fuel : Nat) (F : Forest) (o f : Nat) (dry : Bool)
+theorem enable_nondynamic_not_automatic (fuel : Nat) (F : Forest) (o f : Nat) (dry err : Bool)
     (hne : (getF F o f).enabled = false) (hav : (getF F o f).available = true)
     (hty : (decl (clsOf F o) f).ftype ≠ 0) :
-    enable (fuel + 1) F o f dry false = (F, false) := by
+    enable (fuel + 1) F o f dry false err = (F, false) := by
   rw [enable]; simp [hne, hav, hty]
 
 /-- an already enabled feature requested by a dependant gains one reference -/
-theorem enable_counts_reference (fuel : Nat) (F : Forest) (o f : Nat) (he : (getF F o f).enabled = true) :
-    enable (fuel + 1) F o f false false = (setF F o f { (getF F o f) with refCount := (getF F o f).refCount + 1 }, true) := by
+theorem enable_counts_reference (fuel : Nat) (F : Forest) (o f : Nat) (err : Bool) (he : (getF F o f).enabled = true) :
+    enable (fuel + 1) F o f false false err = (setF F o f { (getF F o f) with refCount := (getF F o f).refCount + 1 }, true) := by
   rw [enable]; simp [he]
 
 /-- no capability is switched off while more than one dependant still needs it -/
